@@ -221,6 +221,7 @@ class Item:
         self.header = []
         self.tail = []
         self.prefix = []
+        self.distribute_guard = None
         self.macro_stmts = []  # (tag, macro name, replacement statement)
 
 
@@ -295,10 +296,10 @@ def parse_sidecar(path):
                 cur = None
             elif key == 'resub':
                 # optional trailing: default `X` = what an unmatched optional group expands to
-                m = re.match(r'(\S+)\s+(\d+|\+)\s+/((?:[^/\\]|\\.)*)/\s*=>\s*' + _BT + r'(?:\s+default\s+' + _BT + r')?\s*$', rest)
+                m = re.match(r'(\S+)\s+(\d+|\+|\*)\s+/((?:[^/\\]|\\.)*)/\s*=>\s*' + _BT + r'(?:\s+default\s+' + _BT + r')?\s*$', rest)
                 if not m:
                     raise SpecError('%s:%d: bad resub' % (path, ln))
-                item.subs.append((m.group(1), -1 if m.group(2) == '+' else int(m.group(2)), 're' if m.group(5) is None else ('re', _unq(m.group(5))), m.group(3), _unq(m.group(4))))
+                item.subs.append((m.group(1), {'+': -1, '*': -2}.get(m.group(2)) or int(m.group(2)), 're' if m.group(5) is None else ('re', _unq(m.group(5))), m.group(3), _unq(m.group(4))))
                 cur = None
             elif key == 'sig':
                 m = re.match(r'(\S+)\s+' + _BT + r'\s*=>\s*' + _BT + r'\s*$', rest)
@@ -323,6 +324,9 @@ def parse_sidecar(path):
                 cur = None
             elif key == 'keep-derives':
                 item.keep_derives = True
+                cur = None
+            elif key == 'distribute-guard':
+                item.distribute_guard = rest.strip() or 'R23'
                 cur = None
             elif key == 'header':
                 cur = item.header
@@ -361,11 +365,11 @@ def parse_sidecar(path):
                 cur = None
             elif w[0] == 'fragment':
                 # //@ fragment <path> fn <name> [in `impl`] block-after|head-until `anchor` as <newname>
-                m = re.match(r'fragment\s+(\S+)\s+fn\s+(\S+)(?:\s+in\s+`([^`]*)`)?\s+(block-after|head-until)\s+' + _BT + r'\s+as\s+(\S+)\s*$', d)
+                m = re.match(r'fragment\s+(\S+)\s+fn\s+(\S+)(?:\s+in\s+`([^`]*)`)?\s+(block-after|head-until)\s+' + _BT + r'(?:\s+until\s+' + _BT + r')?\s+as\s+(\S+)\s*$', d)
                 if not m:
                     raise SpecError('%s:%d: bad fragment' % (path, ln))
-                item = Item(m.group(1), 'fn', m.group(2), m.group(3), m.group(6), ln)
-                item.fragment = (m.group(4), _unq(m.group(5)))
+                item = Item(m.group(1), 'fn', m.group(2), m.group(3), m.group(7), ln)
+                item.fragment = (m.group(4), _unq(m.group(5)), _unq(m.group(6)) if m.group(6) else None)
                 unit.parts.append(('item', item))
                 cur = None
             elif w[0] == 'enumvals':
@@ -556,13 +560,17 @@ def build(repo, sidecar_path, extra_spec=None):
             # wrapped in a synthetic signature given by the side-car.  Everything else of the
             # function is dropped and that is logged; the fragment text itself is subject to the
             # same splice check as a whole function.
-            mode, anchor = item.fragment
+            mode, anchor, until = item.fragment
             fbo = body_open(raw, 0)
             a0, a1 = _nth(raw, anchor, 1, where)
             if mode == 'block-after':
                 ob = raw.rindex('{', a0, a1)
                 cb = match_close(raw, ob)
                 inner = raw[ob + 1:cb - 1]
+                if until:
+                    # only the statements of the block before `until` (the rest of the block is dropped)
+                    u0, _u1 = _nth(inner, until, 1, where)
+                    inner = inner[:u0]
                 f0 = ob
             else:
                 inner = raw[fbo + 1:a0]
@@ -572,7 +580,7 @@ def build(repo, sidecar_path, extra_spec=None):
             header = '\n'.join(l for l, _ in item.header).rstrip()
             tail = '\n'.join(l for l, _ in item.tail)
             g.rewrites.append({'tag': 'Rfrag', 'where': where,
-                               'before': 'fn %s: everything outside the %s `%s`' % (item.name, 'block opened by' if mode == 'block-after' else 'statements before', anchor),
+                               'before': 'fn %s: everything outside the %s `%s`%s' % (item.name, 'block opened by' if mode == 'block-after' else 'statements before', anchor, (' and, inside it, everything from `%s` on' % until) if until else ''),
                                'after': 'dropped; the fragment is wrapped in the synthetic signature `%s`%s' % (' '.join(header.split()), (' and followed by `%s`' % tail.strip()) if tail.strip() else '')})
             prefix = '\n'.join(l for l, _ in item.prefix)
             if prefix.strip():
@@ -658,6 +666,16 @@ def build(repo, sidecar_path, extra_spec=None):
             text = remove_log_statements(text, g.rewrites, where)
             if '#[cfg(' in text:
                 text = apply_cfg(text, g.rewrites, where, getattr(unit, 'cfg', None))
+        if item.distribute_guard:
+            # `P1 | P2 | .. if G => { B }`  ->  `P1 if G => { B } P2 if G => { B } ..` (what the arm means;
+            # this Verus rejects an arm that has both an or-pattern and a guard)
+            rx = re.compile(r'((?:[A-Za-z_:]+\s*\{[^{}]*\}\s*\|\s*)+[A-Za-z_:]+\s*\{[^{}]*\})\s*if\s+([^{}=]*==[^{}=>]*?)\s*=>\s*(\{[^{}]*\})')
+            def _dist(m_):
+                alts = [a.strip() for a in m_.group(1).split('|')]
+                return '\n'.join('%s if %s => %s' % (a, m_.group(2).strip(), m_.group(3)) for a in alts)
+            text, c_ = rx.subn(_dist, text)
+            if c_:
+                g.rewrites.append({'tag': item.distribute_guard, 'where': where, 'before': 'match arm `P1 | P2 | .. if G => B`', 'after': 'one arm per alternative, each with the guard G and the body B', 'count': c_})
         for (tag, mname, repl) in item.macro_stmts:
             text = replace_macro_statements(text, mname, repl, tag, g.rewrites, where)
         for (tag, count, k, frm, to) in item.subs:
@@ -678,7 +696,7 @@ def build(repo, sidecar_path, extra_spec=None):
                     text, c = re.subn(frm, _exp, text, flags=re.S)
                 else:
                     text, c = re.subn(frm, to, text, flags=re.S)
-                if (count == -1 and c < 1) or (count != -1 and c != count):
+                if (count == -1 and c < 1) or (count >= 0 and c != count):
                     raise ExtractionLost('%s: rewrite %s expected %d match(es) of /%s/, found %d'
                                          % (where, tag, count, frm, c))
             g.rewrites.append({'tag': tag, 'where': where, 'before': frm, 'after': to, 'count': c if k != 'lit' else count})
